@@ -78,9 +78,12 @@ def main():
             jobs = int(args.pop(0))
         elif a == '--seeded':
             seeded = True
+        elif a == '--benign':
+            # behaviour-preserving changes (benign/<id>/patch.diff): here a firing check is a FALSE ALARM
+            seeded = 'benign'
     patches = sorted(glob.glob(os.path.join(HERE, 'mutants', '*.patch')))
     if seeded:
-        patches = sorted(glob.glob(os.path.join(HERE, 'seeded', '*', 'patch.diff')))
+        patches = sorted(glob.glob(os.path.join(HERE, 'benign' if seeded == 'benign' else 'seeded', '*', 'patch.diff')))
     if only:
         patches = [p for p in patches if only in p]
     results = []
@@ -95,7 +98,7 @@ def main():
                                             'CAUGHT by ' + f if r['caught'] else 'MISSED',
                                             ('inconclusive:' + ','.join(r['inconclusive'])) if r['inconclusive'] else ''))
             sys.stdout.flush()
-    out = os.path.join(HERE, 'seeded' if seeded else 'mutants', 'RESULTS.%s.json' % tier)
+    out = os.path.join(HERE, ('benign' if seeded == 'benign' else 'seeded') if seeded else 'mutants', 'RESULTS.%s.json' % tier)
     merged = {}
     if os.path.exists(out) and (only or props != ALL):
         for r in json.load(open(out)):
@@ -115,6 +118,10 @@ def main():
     with open(out, 'w') as f:
         json.dump([merged[k] for k in sorted(merged)], f, indent=1)
     missed = [r['mutant'] for r in results if not r.get('caught') and 'error' not in r]
+    if seeded == 'benign':
+        print('%d behaviour-preserving changes, silent on %d, ALARM on: %s' % (
+            len(results), len(missed), [r['mutant'] for r in results if r.get('caught')]))
+        return
     print('%d mutants, %d caught, missed: %s' % (len(results), len(results) - len(missed), missed))
 
 
